@@ -15,7 +15,7 @@ for d in sorted((ROOT / "seeded").iterdir()):
     meta = json.loads((d / "meta.json").read_text())
     out = subprocess.run([str(ROOT / "tools/run_seed.sh"), f"seeded/{d.name}"], capture_output=True, text=True, cwd=ROOT).stdout.strip().splitlines()
     line = out[-1] if out else "no output"
-    m = re.search(r"demo\(no change\)=(\d+) demo\(with change\)=(\d+) check=(\d+) violations=(\d+) with_witness=(\d+) :: (.*)", line)
+    m = re.search(r"demo\(no change\)=(\d+) demo\(with change\)=(\d+) check=(\d+) violations=(\d+) with_witness=(\d+) ::\s*(.*)", line)
     if m:
         d0, d1, rc, nv, nw, obls = m.groups()
         res = {"demo_without_change": int(d0), "demo_with_change": int(d1), "check_exit": int(rc), "violations": int(nv), "with_concrete_witness": int(nw),
